@@ -152,10 +152,10 @@ func mkUpgrader(id *keys.Identity, secName string, early bool, g *conngater.Basi
 // scenario
 
 const (
-	srcNatural = iota // TCPAddr with the natural IP length
-	srcMapped16       // v4: TCPAddr with the 16-byte form
-	srcForcedMapped   // v4: remote multiaddr /ip6/::ffff:a.b.c.d/tcp/port handed over as is
-	srcZone           // v6: TCPAddr with a zone (-> /ip6zone/eth0/ip6/...)
+	srcNatural      = iota // TCPAddr with the natural IP length
+	srcMapped16            // v4: TCPAddr with the 16-byte form
+	srcForcedMapped        // v4: remote multiaddr /ip6/::ffff:a.b.c.d/tcp/port handed over as is
+	srcZone                // v6: TCPAddr with a zone (-> /ip6zone/eth0/ip6/...)
 )
 
 var srcNames = [...]string{"natural", "16-byte-mapped", "/ip6/::ffff:-multiaddr", "ip6zone"}
@@ -227,7 +227,8 @@ var listenTCP = &net.TCPAddr{IP: net.IPv4(198, 51, 100, 1).To4(), Port: 4001}
 
 func TestInboundUpgrader(t *testing.T) {
 	name := t.Name()
-	hx.Check(t, 1200, 25000, 0, func(rt *rapid.T) {
+	hx.Check(t, 1600, 120000, 0, func(rt *rapid.T) {
+		ex0 := relaxedUsed + excludedMasks
 		w := drawWorld(rt)
 		sc := drawInScenario(rt, w)
 		var (
@@ -406,6 +407,9 @@ func TestInboundUpgrader(t *testing.T) {
 			ls = append(ls, k)
 		}
 		sort.Strings(ls)
+		if relaxedUsed+excludedMasks != ex0 {
+			stats.Excluded(name) // a known-finding exclusion shaped this case
+		}
 		stats.Case(name, sc.fingerprint(w), nontrivial, ls...)
 		if stats.WantSample(name) {
 			var as []string
